@@ -396,7 +396,7 @@ def run(ctx: Ctx) -> None:
     gc.freeze()                  # keep the forked workers' pages shared
     q = ctx.quick
     scale = float(os.environ.get('VERIF_BUDGET_SCALE', '1'))  # development
-    budget = (78 if q else 1600) * scale
+    budget = (110 if q else 1600) * scale
     pam = fam_pam(q)
     pam3 = [dict(c, flow='pam') for c in pam if c['flow'] == 'pam3']
     pam = [c for c in pam if c['flow'] == 'pam']
